@@ -280,6 +280,16 @@ class SymbolTable(dict):
         name_parts = self.format_lookup_name(key)  # pylint: disable=assignment-from-no-return
         super().__setitem__(name_parts, value.clone())
 
+    def __delitem__(self, key):
+        super().__delitem__(self.format_lookup_name(key))
+
+    def pop(self, key, *args):
+        """
+        Remove a symbol's entry and return it, with the same name formatting
+        as for look-ups
+        """
+        return super().pop(self.format_lookup_name(key), *args)
+
     def __hash__(self):
         return hash(tuple(self.keys()))
 
@@ -339,7 +349,7 @@ class SymbolTable(dict):
         """
         if self.case_sensitive and 'case_sensitive' not in kwargs:
             kwargs['case_sensitive'] = self.case_sensitive
-        if self.parent and 'parent' not in kwargs:
+        if self.parent is not None and 'parent' not in kwargs:
             kwargs['parent'] = self.parent
         obj = type(self)(**kwargs)
         obj.update(self)
